@@ -56,13 +56,20 @@ def run(tier):
     for r in qrecs:
         lit = r["q"]
         recs.append(dict(t=[91] + lit + [44, 123] + lit + [58, 49, 125, 93], ok=True))
+    tight = []
+    for k in (0, 1, 2, 5, 11, 14, 15, 16, 17, 18, 20, 24, 30, 36) if q else range(0, 48):
+        for m in ((1, 2, 3, 4, 16, 33) if q else (1, 2, 3, 4, 5, 15, 16, 17, 31, 32, 33)):
+            for tail in ((b'', b',7') if q else (b'', b',7', b',1.5', b',true', b',{"a":"\\u0001"}')):
+                t = b'["' + b'\\u0001' * k + b'","' + b'a' * m + b'"' + tail + b']'
+                tight.append(dict(t=list(t), ok=True, tight=True))
+    recs += tight
     seen = set()
     for r in recs:
         if r["ok"]:
             k = bytes(r["t"])
             if k not in seen:
                 seen.add(k)
-                rows.append([str(len(rows)), hexs(r["t"])])
+                rows.append([str(len(rows)), hexs(r["t"]), "1" if r.get("tight") else "0"])
     ctx.log(f"{len(rows)} distinct valid texts to build documents from")
     bins = ctx.build("rt_ser.cpp", builds)
     nsh = 4
@@ -94,8 +101,12 @@ def run(tier):
                 if l and l not in seen_ev:
                     seen_ev[l] = b
     for l, b in seen_ev.items():
-        tok, outhex = l.split("\t")
-        v, _ = tok_to_value(tok.split(" "))
+        try:
+            tok, outhex = l.split("\t")
+            v, _ = tok_to_value(tok.split(" "))
+            bytes.fromhex(outhex if outhex != "-" else "")
+        except Exception:
+            continue                        # torn last line of a crashed recorder
         events.append(dict(k="ser", out=list(bytes.fromhex(outhex)) if outhex != "-" else [], v=v))
     ctx.log(f"{len(events)} distinct (document, output) events for TLC (JsonText recogniser + value comparison)")
     rej = N.validate_events(ctx, events, name="c06", per_shard=1500, workers_per=1)
